@@ -880,7 +880,7 @@ func verifDriverMain() {
 				continue
 			}
 			reply("ok " + r.status())
-		case w[0] == "proxyrelay" || w[0] == "orburst":
+		case w[0] == "proxyrelay" || w[0] == "orburst" || w[0] == "sockspipe":
 			reply(verifTCPCommand(w))
 		case w[0] == "log.run":
 			reply(verifLogRun(w))
